@@ -1010,7 +1010,7 @@ def judge(ck, case, fres, mline, bres, hmap, stats):
                 mism.append("output differs: implementation %s, model %s" % (lines[:40], mout[:40]))
             # init symbols
             if bres["syms"] is not None:
-                pref = hmap.get(root, "")[: -len(root)] if hmap.get(root) else ""
+                pref = case.get("_hdir", "")        # the model's name of the case directory: a prefix of its modules' names
                 mine = sorted({s for s in bres["syms"] if s.startswith(pref)})
                 want = sorted({hmap[q] + "_init" for q in [root] + reach if q in hmap})
                 if mine != want:
@@ -1129,10 +1129,13 @@ def evaluate(env, cases, sink, cyc_sample=7):
     bres = dict(zip([c["id"] for c in todo], vlib.pmap(lambda c: run_backend(b, c), todo)))
     # flattened module names of all compiled cases in one model call
     paths = [(c["id"], r, os.path.join(c["_dir"], r)) for c in todo for r in sorted(c["mods"])]
+    paths += [(c["id"], "_dir", c["_dir"]) for c in todo]
     hs = hashables(model, [p for _, _, p in paths]) if paths else []
     hmaps = {}
     for (cid, r, _), h in zip(paths, hs):
         hmaps.setdefault(cid, {})[r] = h
+    for c in todo:
+        c["_hdir"] = hmaps[c["id"]].pop("_dir")
     stats = dict(cyclic=0, compiled=0, ran=0, badname_imports=0, invisible_probes=0, outside_model_domain=0, rejected=0, accepted=0)
     mism = {}
     for c in cases:
